@@ -48,6 +48,17 @@ ILL_TYPED = {
     'index-scalar': 'def f(a: int) -> int:\n\treturn a[0]\n',
     'str-minus-int': "def f(a: int) -> int:\n\treturn 's' - a\n",
     'return-in-module': 'return 1\n',
+    'generic-arity-dict': 'a: dict[str] = {}\n',
+    'generic-arity-dict-param': 'def f(d: dict[str]) -> int:\n\treturn 1\n',
+    'generic-arity-list': 'a: list[int, str] = []\n',
+    'generic-arity-callable': 'from collections.abc import Callable\n\ndef f(g: Callable[int]) -> int:\n\treturn 1\n',
+    'generic-arity-tuple-empty': 'def f(t: tuple[()]) -> int:\n\treturn 1\n',
+    'generic-on-scalar': 'a: int[str] = 1\n',
+    'unannotated-method-param': 'class A:\n\tdef f(self, a) -> None:\n\t\tpass\n',
+    'unannotated-return': 'def f(a: int):\n\treturn a\n',
+    'unannotated-lambda-assign': 'g = lambda x: x\n',
+    'unpack-arity': 'a, b, c = (1, 2)\n',
+    'self-assign': 'a = a\n',
     'self-outside-class': 'def f() -> int:\n\treturn self.v\n',
     'super-outside-class': 'def f() -> int:\n\treturn super().v\n',
     'duplicate-def': 'def f() -> int:\n\treturn 1\n\ndef f() -> str:\n\treturn 1\n',
